@@ -123,14 +123,14 @@ type handed struct {
 }
 
 type allocRun struct {
-	plan   *AllocPlan
-	a      *z.Allocator
-	sim    *core.Sim
-	dec    *core.Decider
-	live   []handed // since the last Reset
-	viol   []Violation
-	nseq   int
-	inSlow [16]bool
+	plan              *AllocPlan
+	a                 *z.Allocator
+	sim               *core.Sim
+	dec               *core.Decider
+	live              []handed // since the last Reset
+	viol              []Violation
+	nseq              int
+	inSlow            [16]bool
 	overshootTogether int
 	slowPaths         int
 	chunksAdded       int
@@ -269,7 +269,7 @@ func (t *allocRun) schedule(tasks []*core.Task, picker *core.Picker) string {
 		if done {
 			return ""
 		}
-		if t.sim.Panic != nil {
+		if t.sim.Panicked() {
 			return "panic"
 		}
 		if t.dec.Diverged != "" {
@@ -361,7 +361,7 @@ func runAlloc(plan *AllocPlan, dec *core.Decider) *RunResult {
 			break
 		}
 	}
-	if sim.Panic != nil && reason == "" {
+	if sim.Panicked() && reason == "" {
 		reason = "panic"
 	}
 	if reason != "" {
@@ -370,7 +370,7 @@ func runAlloc(plan *AllocPlan, dec *core.Decider) *RunResult {
 		case "stepcap":
 			t.violate("non-termination", fmt.Sprintf("a request did not return within %d scheduling steps", plan.MaxSteps))
 		case "panic":
-			t.violate("panic", sim.PanicTxt)
+			t.violate("panic", sim.PanicText())
 		case "deadlock":
 			t.violate("deadlock", "no task can run and a request has not returned")
 		}
